@@ -31,6 +31,11 @@ def mutate(rng, v, depth=0):
         if kind < 0.15:
             rng.shuffle(ks)
             return {k: v[k] for k in ks}
+        if kind < 0.3:          # rename one key (same size, different key set), sometimes to a null-valued member
+            k = rng.choice(ks)
+            w = {kk: vv for kk, vv in v.items() if kk != k}
+            w[rng.choice(["zz", "b", "c", ""])] = rng.choice([v[k], None])
+            return w
         k = rng.choice(ks)
         w = dict(v)
         w[k] = mutate(rng, v[k], depth + 1)
